@@ -178,3 +178,78 @@ func zzH_C10_serverNotify() {
 		verifReach("server-kept")
 	}
 }
+
+
+func zzRecvEntry10(t *trzszTransfer, root string, rel []string, isDir bool) {
+	src := &sourceFile{PathID: 0, RelPath: rel, IsDir: isDir}
+	js, err := src.marshalSourceFile()
+	verifAssume(err == nil)
+	t.buffer.addBuffer([]byte("#NAME:" + encodeString(js) + "\n"))
+	f, _, err := t.recvFileName(root, nil)
+	verifAssume(err == nil)
+	if f != nil {
+		f.Write([]byte("new"))
+		f.Close()
+	}
+}
+
+// directory transfers: a directory that was already there (overwrite mode receives into it) is not "created by this
+// transfer", so stop-and-delete leaves it and whatever it held; what the transfer added inside it is removed
+func zzH_C10_dirDelete() {
+	root := verifFSRoot()
+	had := verifNondetBool()
+	if had {
+		verifFSAddDir(root + "/d")
+		verifFSAddFile(root+"/d/old", []byte("old"))
+		if verifNondetBool() {
+			verifFSAddDir(root + "/d/e")
+			verifFSAddFile(root+"/d/e/old", []byte("old-e"))
+		}
+	}
+	verifFSBegin()
+	sink := &zzSink10{}
+	t := newTransfer(sink, nil, false, nil)
+	t.transferConfig.Timeout = 0
+	t.transferConfig.Directory = true
+	t.transferConfig.Overwrite = verifNondetBool()
+	n := verifNondetRange(1, 4)
+	zzRecvEntry10(t, root, []string{"d"}, true)
+	if n >= 2 {
+		zzRecvEntry10(t, root, []string{"d", "x"}, false)
+	}
+	if n >= 3 {
+		zzRecvEntry10(t, root, []string{"d", "e"}, true)
+	}
+	if n >= 4 {
+		zzRecvEntry10(t, root, []string{"d", "e", "y"}, false)
+	}
+	top := "d"
+	if had && !t.transferConfig.Overwrite {
+		top = "d.0" // received next to the directory that was already there
+	}
+	sink.data = nil
+	del := verifNondetBool()
+	t.stopTransferringFiles(del)
+	err := t.checkStop()
+	verifAssert(zzIsStopErr(err, del), "checkStop after stop")
+	t.clientError(err)
+	verifAssert(!verifFSPreTouched(), "stop removed or modified something that existed before the transfer")
+	if had {
+		verifAssert(verifFSKind(root+"/d") == 2, "pre-existing directory removed")
+		verifAssert(verifFSKind(root+"/d/old") == 1, "file inside a pre-existing directory removed")
+	}
+	if del {
+		if top != "d" || !had {
+			verifAssert(verifFSKind(root+"/"+top) == 0, "stop-and-delete left a directory this transfer created")
+		}
+		verifAssert(verifFSKind(root+"/"+top+"/x") == 0, "stop-and-delete left a file this transfer created")
+		verifAssert(verifFSKind(root+"/"+top+"/e/y") == 0, "stop-and-delete left a nested file this transfer created")
+		verifReach("dir-deleted")
+	} else {
+		verifAssert(verifFSKind(root+"/"+top) == 2, "plain stop removed a received directory")
+		if n >= 2 {
+			verifAssert(verifFSKind(root+"/"+top+"/x") == 1, "plain stop removed a completed file")
+		}
+		verifReach("dir-kept")
+	}
+}
